@@ -37,16 +37,19 @@ def instantiate_default_methods(doc):
             continue
         trait, name = k.rsplit("::", 1)
         selfs = impls.get(trait)
-        if not selfs or len(selfs) != 1:
+        if not selfs:
             continue
-        S = next(iter(selfs))
-        nk = "<%s as %s>::%s" % (S, trait, name)
-        if nk in fns:
-            continue
-        made[k] = (nk, S, trait)
+        # every implementing type that does not write the method itself gets its own instance of the provided body
+        for S in sorted(selfs):
+            nk = "<%s as %s>::%s" % (S, trait, name)
+            if nk in fns:
+                continue
+            made.setdefault(k, []).append((nk, S, trait))
+    made = {k: v for k, v in made.items() if v}
     if not made:
         return []
-    for k, (nk, S, trait) in made.items():
+    flat = [(k, nk, S, trait) for k, v in made.items() for (nk, S, trait) in v]
+    for (k, nk, S, trait) in flat:
         text = json.dumps(fns[k], ensure_ascii=False)
         text = re.sub(r"(?<![A-Za-z0-9_])Self(?![A-Za-z0-9_])", lambda _m: json.dumps(S, ensure_ascii=False)[1:-1], text)
         nf = json.loads(text)
@@ -64,7 +67,7 @@ def instantiate_default_methods(doc):
                 c = t.get("callee") if t["k"] == "call" else None
                 if not c or not c.get("trait"):
                     continue
-                for dk, (nk, S, trait) in made.items():
+                for (dk, nk, S, trait) in flat:
                     if c.get("trait") != trait or c.get("self_ty") != S:
                         continue
                     if c.get("path") == dk:
@@ -75,7 +78,7 @@ def instantiate_default_methods(doc):
                             c["resolved"], c["rkind"], c["rlocal"] = tgt, "item", True
     for k in made:
         fns.pop(k, None)
-    return sorted(nk for nk, _, _ in made.values())
+    return sorted(nk for (_, nk, _, _) in flat)
 
 
 def canonicalise(doc):
